@@ -21,7 +21,7 @@ ASSUMPTIONS = ['a kill happens between two events, an event being an output writ
                'outputs are compared modulo Created/LastChange/processingDateTime; logits by unpickled content; JPEGs byte-wise', '"complete page" = all its requested outputs exist when the run starts']
 N = {'quick': 0, 'thorough': 0}      # filled in by scenarios()
 CLASSES = ['single_crash', 'multi_crash', 'no_crash']
-REQUIRED = ['scenarios', 'crash_runs', 'resume_runs', 'crashes_inside_batch', 'final_trees_compared', 'page_events', 'nothing_to_do_runs', 'real_kills_compared']
+REQUIRED = ['lmdb_scenarios', 'decoder_batch_runs', 'scenarios', 'crash_runs', 'resume_runs', 'crashes_inside_batch', 'final_trees_compared', 'page_events', 'nothing_to_do_runs', 'real_kills_compared']
 KNOWN_CROPS = 'line crops are the only requested output'
 IDS = ('a', 'b.v2', 'c.jpg_x', 'd.xml', 'e.logits.1', 'f', 'f.b')     # 'f' / 'f.b': file-name order (f.b.png < f.png) and id order (f < f.b) disagree
 ALL = ['xml', 'render', 'logits', 'alto', 'line']
@@ -35,13 +35,18 @@ class Kill(BaseException):
     pass
 
 
+POINTS = {'xml': 2, 'alto': 2, 'render': 1, 'logits': 1, 'lmdb': 1}     # xml / alto: the write call and, inside it, the assembly of the document text
+
+
 def writes_of(kinds, n_lines=2):
-    per_page = sum(1 for k in kinds if k != 'line') + (n_lines if 'line' in kinds else 0)
+    """crash points of the page loop: every output write; for the two XML kinds also the point inside the write call at which the document
+    text is assembled (a kill there must not leave anything that marks the page as done)"""
+    per_page = sum(POINTS[k] for k in kinds if k != 'line') + (n_lines if 'line' in kinds else 0)
     return per_page * len(IDS)
 
 
 def events_of(kinds):
-    """crash-able events of a first run: one directory creation per requested output folder + the writes"""
+    """crash points of a first run: one directory creation per requested output folder + the points of the page loop"""
     return writes_of(kinds) + len(kinds) + 1       # + 1: os.makedirs creates the common parent folder through a recursive call
 
 
@@ -69,6 +74,16 @@ def scenarios(tier, seed):
             out.append((kinds, ()))
             for p in sorted(set(list(range(0, nd + pp + 1)) + list(range(nd + 2 * pp, nd + 3 * pp + 1)) + [nw])):
                 out.append((kinds, (p,)))
+    # the LMDB form of the line-crop output (a line path containing 'lmdb'): one record per crop, written in one transaction per page
+    for kinds in (['xml', 'lmdb'], ['xml', 'render', 'logits', 'alto', 'lmdb'], ['logits', 'lmdb']):
+        nd = len(kinds) + 1
+        nw = events_of(kinds)
+        pp = writes_of(kinds) // len(IDS)
+        out.append((kinds, ()))
+        pos = range(nw + 1) if tier == 'thorough' else sorted(set(list(range(0, nd + pp + 1)) + list(range(nd + 2 * pp, nd + 3 * pp + 1)) + [nw - 1, nw]))
+        for p in pos:
+            out.append((kinds, (p,)))
+        out.append((kinds, (nd + pp + 1, nd + 1)))
     if tier == 'thorough':
         for kinds in (ALL, ['xml', 'logits', 'alto'], ['render', 'line']):
             nw = events_of(kinds)
@@ -106,14 +121,15 @@ def install_recorders(ctx, PageLayout, cv2, real_exit=False):
         orig = getattr(obj, name)
 
         def w(*a, **k):
+            # a crash point: the kill happens INSTEAD of passing it.  Points are numbered when they are passed, so that a point inside a write call
+            # (the assembly of the document text) has its own position after the call's entry.
             if state['crash_at'] is not None and state['n'] == state['crash_at']:
                 if state['real']:
                     os._exit(137)
                 raise Kill()
-            r = orig(*a, **k)
             state['n'] += 1
-            events.append((kind, a[pathidx]))
-            return r
+            events.append((kind, a[pathidx] if pathidx is not None else None))
+            return orig(*a, **k)
         setattr(obj, name, w)
     # directory creations are crash-able events too (a kill may fall between a write and the creation of the next output folder)
     orig_makedirs, orig_mkdir = os.makedirs, os.mkdir
@@ -126,10 +142,9 @@ def install_recorders(ctx, PageLayout, cv2, real_exit=False):
                     if state['real']:
                         os._exit(137)
                     raise Kill()
-                r = orig(path, *a, **k)
                 state['n'] += 1
                 events.append(('mkdir', path))
-                return r
+                return orig(path, *a, **k)
             return orig(path, *a, **k)
         return w
     os.makedirs = mk(orig_makedirs)
@@ -137,6 +152,9 @@ def install_recorders(ctx, PageLayout, cv2, real_exit=False):
     wrap(PageLayout, 'save_logits', 'logits', 1)
     wrap(PageLayout, 'to_altoxml', 'alto', 1)
     wrap(cv2, 'imwrite', 'img', 0)
+    wrap(PageLayout, 'to_pagexml_string', 'assemble-xml', None)
+    wrap(PageLayout, 'to_altoxml_string', 'assemble-alto', None)
+    wrap(ctx.PF.LMDB_writer, '__call__', 'lmdb', None)
     oc = ctx.PF.Computator.__call__
 
     def cc(self, image_file_name, file_id, index, ids_count):
@@ -188,6 +206,8 @@ def check(case, mon, ctx):
     kinds, seq = case['kinds'], case['crashes']
     ref_out, ref, nw, _, _ = reference(ctx, kinds, mon)
     mon.count('scenarios')
+    if 'lmdb' in kinds:
+        mon.count('lmdb_scenarios')
     if len(seq) == 1:
         mon.count('single_crash_positions_enumerated')
     w = {'outputs': kinds, 'crash_positions': seq, 'events_in_a_full_first_run (folder creations + writes)': nw}
@@ -281,7 +301,37 @@ def _real_main(root, out, kinds, crash_at, repo):
     pipeline.run_main(c.PF, pipeline.argv_for(root, out, kinds))
 
 
+def decoder_batch(mon, ctx):
+    """the same batch with a decoder stage configured: crash, resume, and then runs that find nothing left to do"""
+    root = os.path.join(ctx.tmpdir, 'batch_dec')
+    pipeline.make_batch(root, IDS[:4], seed=18, n_lines=2, decoder=dict(carry=False, threshold=None, beam=2, lm_scale=1.0))
+    kinds = ['xml', 'logits']
+    saved_root = ctx.root
+    ctx.root = root
+    try:
+        ref_out = os.path.join(ctx.tmpdir, 'dec_ref')
+        res, nw, pr = run(ctx, ref_out, kinds)
+        ref = pipeline.snapshot(ref_out)
+        mon.cur_desc = {'leg': 'batch with a decoder stage', 'outputs': kinds}
+        if res != 'ok' or sorted(pr) != sorted(IDS[:4]):
+            mon.violation('harness:exception', {'note': 'decoder batch: uninterrupted run did not behave as planned', 'status': res, 'processed': pr})
+            return
+        out = os.path.join(ctx.tmpdir, 'dec_o')
+        for crash_at in (nw // 2, None, None):
+            res, n, pr = run(ctx, out, kinds, crash_at=crash_at)
+            mon.count('decoder_batch_runs')
+            mon.count('extra_evaluations')
+            if crash_at is None and res != 'ok':
+                mon.violation('nothing-left-to-do-exits-cleanly' if not pr else 'resumed-run-exits-cleanly', {'configuration': 'decoder stage configured', 'outputs': kinds, 'status': res, 'pages_processed_in_this_run': pr})
+        if pipeline.snapshot(out) != ref:
+            mon.violation('outputs-equal-uninterrupted-run', {'configuration': 'decoder stage configured', 'outputs': kinds})
+    finally:
+        ctx.root = saved_root
+
+
 def extra(mon, ctx):
+    if ctx.shard == 1 % ctx.nshards:
+        decoder_batch(mon, ctx)
     if ctx.shard != 0:
         return
     kinds = ALL
